@@ -65,6 +65,8 @@ pub enum ObsItem {
     ProbeApi { node: u32, ok: bool, what: String },
     RawRecv { node: u32, dgrams: Vec<u32> },
     FaultsOff { seq: u64 },
+    /// an application thread was still inside a repository call long after everything ended
+    AppStuck { node: u32, scope: String },
 }
 
 pub type ObsLog = Arc<Mutex<Vec<ObsItem>>>;
@@ -690,6 +692,8 @@ fn net_config(sc: &Scenario) -> NetConfig {
         send_err_ppm: k.send_err_ppm,
         recv_intr_ppm: k.recv_intr_ppm,
         oversleep_max_ns: k.oversleep_max_ns,
+        preempt_ppm: k.preempt_ppm,
+        preempt_max_ns: k.preempt_max_ns,
     }
 }
 
@@ -730,9 +734,9 @@ pub fn run(sc: &Scenario) -> RunOutput {
         for (i, n) in sc.nodes.iter().enumerate() {
             let (node, spec, sc3, obs3) = (i as u32, n.clone(), sc.clone(), obs.clone());
             alive.insert(node);
-            handles.push(simrt::thread::spawn_named_on(Some(node), Some(format!("app:{}", node)), move || {
+            handles.push((node, simrt::thread::spawn_named_on(Some(node), Some(format!("app:{}", node)), move || {
                 app_main(node, 0, spec, 0, sc3, obs3)
-            }));
+            })));
         }
         for (at, step) in sc.root.iter() {
             ctl::sleep_until_ns(ms(*at));
@@ -755,9 +759,9 @@ pub fn run(sc: &Scenario) -> RunOutput {
                         let inc = incs.entry(*node).or_insert(0);
                         *inc += 1;
                         let (node, inc, spec, sc3, obs3, from) = (*node, *inc, sc.nodes[*node as usize].clone(), sc.clone(), obs.clone(), ctl::now_ns() / 1_000_000 + 1);
-                        handles.push(simrt::thread::spawn_named_on(Some(node), Some(format!("app:{}#{}", node, inc)), move || {
+                        handles.push((node, simrt::thread::spawn_named_on(Some(node), Some(format!("app:{}#{}", node, inc)), move || {
                             app_main(node, inc, spec, from, sc3, obs3)
-                        }));
+                        })));
                     }
                 }
                 RootStep::ClockJump { node, ms } => ctl::clock_jump(*node, Duration::from_millis(*ms)),
@@ -801,7 +805,17 @@ pub fn run(sc: &Scenario) -> RunOutput {
                 }
             }
         }
-        for h in handles {
+        // application threads finish by themselves shortly after the probe phase; one that is
+        // still inside a repository call long after that will never return
+        ctl::sleep_until_ns(ms(sc.duration_ms + SETTLE_MS + PROBE_WINDOW_MS + 2_500 + 12_000));
+        for (node, h) in handles {
+            let (scope, finished) = ctl::thread_scope(h.tid());
+            if !finished {
+                if let Some(scope) = scope {
+                    push(&obs, ObsItem::AppStuck { node, scope });
+                }
+                continue;
+            }
             let _ = h.join();
         }
     });
